@@ -22,6 +22,7 @@ def run(ctx):
     seen = lib_guards.analyse(ctx, P, funcs=funcs)
     lib_guards.presence(ctx, seen, funcs=funcs, P=P)
     lib_module.options_plumbing(ctx, P, funcs={"Tree_get_newick"})
+    lib_module.flags_consumed(ctx, P, funcs={"Tree_get_newick"})
     lib_module.parsed_used(ctx, P, only=ms)
     lib_err.discipline(ctx, P, ["convert"])
     lib_py.kw_forward(ctx, py, mods=("trees", "text_formats"), only=ps)
